@@ -1,6 +1,6 @@
 #!/usr/bin/env python3
 """apply every seeded change in turn to /repo (clean tree required), run its property's check, undo, and record the
-outcome in seeded/<name>/meta.json under "sweep".  usage: sweep_mutants.py [tier] [name-filter]"""
+outcome in seeded/<name>/meta.json under "sweep".  usage: sweep_mutants.py [tier] [name-regex]"""
 import json, os, subprocess, sys, glob, re
 tier = sys.argv[1] if len(sys.argv) > 1 else "quick"
 flt = sys.argv[2] if len(sys.argv) > 2 else ""
@@ -14,7 +14,7 @@ sh("rm -rf %s /tmp/sweepout && git clone -q /repo %s && mkdir -p /tmp/sweepout" 
 env = dict(os.environ, VERIF_REPO=SW, VERIF_OUT_DIR="/tmp/sweepout")
 for d in sorted(glob.glob("/verif/seeded/*")):
     name = os.path.basename(d)
-    if flt and flt not in name:
+    if flt and not re.search(flt, name):
         continue
     meta = json.load(open(d + "/meta.json"))
     pid = meta["property"]
